@@ -145,7 +145,7 @@ func genC10(t *rapid.T) C10Case {
 	if chancePct(t, 40, "dumpfocus") {
 		return genC10Dump(t)
 	}
-	ops := rapid.SliceOfN(genC10Op, 1, 40).Draw(t, "ops")
+	ops := genSlice(t, genC10Op, 1, 40, "ops")
 	// start in a writable, typed state most of the time
 	if chancePct(t, 85, "preamble") {
 		pre := []C10Op{{Kind: "prefix", Typ: dbTypes[uniformN(t, len(dbTypes), "pretyp")]}}
